@@ -73,6 +73,7 @@ static void life_sink(int phase, char const* site, void const* obj, std::uint64_
         bool const returning = (a >> 1) <= (a & 1);
         if (!returning && a == b && a == tl_last_sample)
         {
+            e2::tl_depth = 0;    // drops the gac.sample pair opened by the PRE (never nested)
             e2::tl_holding = false;
             e2::unlock();
             return;
